@@ -26,9 +26,14 @@
      and for vdb replace "hide" - but there ConsistentOutsideWindow holds: the only bad states
      are those between the two renames (the package is listed in neither form = Neither).        *)
 EXTENDS PkgDb, TLC
-CONSTANT Family     \* which configurations this run covers (one TLC run explores all of them)
-VARIABLES conf, fs, pc, done, cur
-vars == <<conf, fs, pc, done, cur>>
+CONSTANTS Family,   \* which configurations this run covers (one TLC run explores all of them)
+          IOFaults, \* TRUE: one I/O error (EIO / ENOSPC) may hit ANY step; the step does not happen and the
+                    \* operation's own error handling runs, then the operation aborts (pc = Aborted)
+          Handler,  \* binpkg add_data's handler: "tmp" = unlink the staging file; "both" = unlink the staging
+                    \* file AND the final name (the naive "leave nothing truncated behind" - must be caught)
+          Rollback  \* vdb replace: TRUE = when moving the new entry in fails, move the old entry back
+VARIABLES conf, fs, pc, done, cur, failed
+vars == <<conf, fs, pc, done, cur, failed>>
 
 Repo == conf.repo
 Op == conf.op
@@ -92,9 +97,12 @@ Prog ==
     [] OTHER            -> AddData \o << I("rmtree", HideP, <<>>, "ignore"), I("rename", OldP, HideP, "hide") >>
                                    \o RenameIn \o << I("rmtree", HideP, <<>>, "strict") >>
 
-Init == conf \in Confs(Family) /\ fs = Fs0 /\ pc = 1 /\ done = {} /\ cur = "-"
+Init == conf \in Confs(Family) /\ fs = Fs0 /\ pc = 1 /\ done = {} /\ cur = "-" /\ failed = FALSE
 
-Error == 0
+Error == 0          \* = Aborted: the operation gave up (a failed syscall or an injected I/O error)
+H1 == 0 - 1         \* error-handler steps (negative program counters)
+H2 == 0 - 2
+HB == 0 - 3
 Running == pc \in DOMAIN Prog
 Adv(r) == fs' = r.s /\ pc' = (IF r.ok THEN pc + 1 ELSE Error) /\ UNCHANGED <<done, cur>>
 Skip   == fs' = fs /\ pc' = pc + 1 /\ UNCHANGED <<done, cur>>
@@ -122,7 +130,24 @@ Step(ins) ==
     [] ins.op = "fwrite"  -> Adv(SetContentAt(fs, ins.p, ins.x, 1))
     [] ins.op = "chmod"   -> Adv(Chmod(fs, ins.p, 420))
 
-Next == Running /\ Step(Prog[pc]) /\ UNCHANGED conf
+(* An injected I/O error: the current step does not happen; control goes to the error handling the
+   code has at that point:
+     binpkg add_data (everything before the final rename)  try/except: unlink_if_exists(staging) [Handler "both":
+                                                           and the final name], re-raise
+     vdb replace, moving the new entry in                  [Rollback] move the hidden old entry back, re-raise
+     everywhere else                                       none, the exception propagates                      *)
+InBinAddData == Repo = "bin" /\ Op # "uninstall" /\ Prog[pc].op # "rename"
+AtSwapIn == Repo = "vdb" /\ Prog[pc].op = "rename" /\ Prog[pc].x = "swap_in" /\ Op \in {"replace_same", "replace_diff"} /\ Variant = "hide"
+Fault ==
+  /\ IOFaults /\ Running /\ ~failed /\ failed' = TRUE /\ UNCHANGED <<fs, done, cur>>
+  /\ pc' = (IF InBinAddData THEN H1 ELSE IF AtSwapIn /\ Rollback THEN HB ELSE Error)
+UnlinkIfExists(p) == IF HasName(fs, p) THEN Unlink(fs, p).s ELSE fs
+HandlerStep ==
+  \/ pc = H1 /\ fs' = UnlinkIfExists(Tmp) /\ pc' = (IF Handler = "both" THEN H2 ELSE Error) /\ UNCHANGED <<done, cur, failed>>
+  \/ pc = H2 /\ fs' = UnlinkIfExists(Final) /\ pc' = Error /\ UNCHANGED <<done, cur, failed>>
+  \/ pc = HB /\ fs' = Rename(fs, HideP, OldP).s /\ pc' = Error /\ UNCHANGED <<done, cur, failed>>
+
+Next == ((Running /\ Step(Prog[pc]) /\ UNCHANGED failed) \/ Fault \/ HandlerStep) /\ UNCHANGED conf
 Spec == Init /\ [][Next]_vars
 
 (* ---- the property ---- *)
@@ -134,11 +159,15 @@ Applicable == OpApplicable(Op, OldView, "P1", NewName)
 Consistent == JudgeView(OldView, NewView, View(fs)) = {}
 NeverPartial == "Partial" \notin JudgeView(OldView, NewView, View(fs))
 NoCollateral == "Collateral" \notin JudgeView(OldView, NewView, View(fs))
-\* the state between moving the old entry away and moving the new one into place
-InWindow == Running /\ Prog[pc].op = "rename" /\ Prog[pc].x = "swap_in" /\ ~HasName(fs, OldP)
+\* the state between moving the old entry away and moving the new one into place: nothing is lost
+\* (old entry complete under its hidden name, new entry complete in the staging dir), nothing is listed
+InWindow == /\ ~HasName(fs, OldP) /\ HasName(fs, HideP) /\ DirDigest(fs, HideP, Files, Versions) = "old"
+            /\ HasName(fs, Tmp) /\ DirDigest(fs, Tmp, Files, Versions) = "new"
 ConsistentOutsideWindow == Consistent \/ (InWindow /\ JudgeView(OldView, NewView, View(fs)) = {"Neither"})
-\* an uninterrupted run never fails and ends in the new view
-NoError   == pc # Error
+\* where a HANDLED failure leaves the repository (the state every later reader sees, not only a crash)
+AbortedConsistent == pc = Error => Consistent
+\* a run without an injected error never fails and ends in the new view
+NoError   == pc = Error => failed
 Completes == pc = Len(Prog) + 1 => View(fs) = NewView
 \* the new view differs from the old one (no configuration is vacuous)
 NonVacuous == OldView # NewView /\ Applicable
